@@ -735,7 +735,7 @@ impl ParserListener for Screen {
     fn insert_characters(&mut self, count: Option<u32>) {
         self.dirty.insert(self.cursor.y);
 
-        let count = count.unwrap_or(1);
+        let count = count.map(|a| if a > 0 { a } else { 1 }).unwrap_or(1);
         let default = self.default_char();
 
         let line = self
@@ -763,7 +763,7 @@ impl ParserListener for Screen {
             Some(margins) => margins.top,
             None => 0,
         };
-        let count = count.unwrap_or(1);
+        let count = count.map(|a| if a > 0 { a } else { 1 }).unwrap_or(1);
         self.cursor.y = self.cursor.y.saturating_sub(count).max(top);
     }
 
@@ -772,7 +772,7 @@ impl ParserListener for Screen {
             Some(margins) => margins.bottom,
             None => self.lines - 1,
         };
-        let count = count.unwrap_or(1);
+        let count = count.map(|a| if a > 0 { a } else { 1 }).unwrap_or(1);
         self.cursor.y = (self.cursor.y + count).min(bottom);
     }
 
@@ -787,7 +787,7 @@ impl ParserListener for Screen {
     /// # Parameters
     /// - `count`: Number of columns to skip.
     fn cursor_forward(&mut self, count: Option<u32>) {
-        self.cursor.x += count.unwrap_or(1);
+        self.cursor.x += count.map(|a| if a > 0 { a } else { 1 }).unwrap_or(1);
         self.ensure_hbounds();
     }
 
@@ -803,8 +803,9 @@ impl ParserListener for Screen {
         if self.cursor.x == self.columns {
             self.cursor.x -= 1
         }
-        if self.cursor.x >= count.unwrap_or(1) {
-            self.cursor.x -= count.unwrap_or(1);
+        let count = count.map(|a| if a > 0 { a } else { 1 }).unwrap_or(1);
+        if self.cursor.x >= count {
+            self.cursor.x -= count;
         } else {
             self.cursor.x = 0;
         }
@@ -908,7 +909,7 @@ impl ParserListener for Screen {
     ///
     /// - `count`: Number of lines to insert.
     fn insert_lines(&mut self, count: Option<u32>) {
-        let count = count.unwrap_or(1);
+        let count = count.map(|a| if a > 0 { a } else { 1 }).unwrap_or(1);
         let Margins { top, bottom } = self
             .margins
             .unwrap_or(Margins { top: 0, bottom: self.lines - 1 });
@@ -931,7 +932,7 @@ impl ParserListener for Screen {
     }
 
     fn delete_lines(&mut self, count: Option<u32>) {
-        let count = count.unwrap_or(1);
+        let count = count.map(|a| if a > 0 { a } else { 1 }).unwrap_or(1);
         let Margins { top, bottom } = self
             .margins
             .unwrap_or(Margins { top: 0, bottom: self.lines - 1 });
